@@ -7,10 +7,12 @@ from .. import tables, clone
 from ..facts import AnalysisBroken
 from ..flow import lvalue_key, is_assign, _strip_casts
 
-EXPLANATION = ('(1) Overflow guards of both varint decoders, evaluated over every reachable decoder state (num_bits from its '
-               'initialiser and +7 step while a continuation byte passes the guard) x every byte value: if the payload does not fit '
-               'the guard fires (no silent wrap), for a terminal byte that fits it does not fire (every value up to 64 / 63 bits is '
-               'accepted), the shift count stays below 64, and the firing branch stores ErrorCode::Overflow. (2) Packing pairs: each '
+EXPLANATION = ('(1) Both varint decoders, interpreted (sa/minieval, C integer widths) on every byte stream head(d, fill) ++ [b] ++ tail - '
+               'depth d up to two groups past bit 63, both extreme fillings of the earlier groups, every byte value b, the shortest '
+               'tails; the format gives the value V of a stream as an unbounded integer: V beyond 63 / 64 bits => ErrorCode::Overflow '
+               'is stored (no silent wrap); V within and no continuation byte above bit 56 => exactly V and no flag; no shift by the '
+               'operand width or more. The statement form of guard and loop does not enter. '
+               '(2) Packing pairs: each '
                'oasis_write_int_internal(value, n, bits) call site has a reader site oasis_read_int_internal(skip = n) whose decode of '
                'the returned bits inverts the writer\'s bits expression; the internal masks/shifts (0x7F, 0x80, 7, 7-n) agree. (3) '
                'Direction tables: for every sign/equality class of (x, y) the writer\'s (direction, magnitude) composed with the '
@@ -448,28 +450,87 @@ def check_reals(ctx, db):
     ctx.touch(w)
     ctx.touch(r)
     names = {c['n']: c['v'] for c in db.enum('gdstk::OasisDataType')['consts']}
-    # writer: type code -> what is written
-    wt = {}
-    for c in w.calls('gdstk::oasis_putc'):
-        code = norm(c.args[0].text())
-        m = re.search(r'OasisDataType::(\w+)', code)
-        if not m:
+    # writer o reader = identity on doubles: oasis_write_real is interpreted (sa/minieval, IEEE double division, C integer
+    # conversions) on a table of values; the tokens it emits (type byte, unsigned magnitude or the 8 little-endian bytes) are fed to
+    # the interpreted oasis_read_real_by_type; the value read back must be the value written. Which of the forms {+-int, +-1/int,
+    # double} the writer picks is its own business; a magnitude converted to uint64 without being integral and below 2^64, a sign
+    # or a reciprocal lost, a form the reader has no arm for - all show as a value that does not come back.
+    import struct
+    import math
+    from .. import minieval as M
+    table = [0.0, 1.0, -1.0, 2.0, 255.0, -256.0, 1e6, -1e9, float(2 ** 53), float(2 ** 53 + 2), -float(2 ** 62), float(2 ** 63), -float(2 ** 63), float(2 ** 64 - 2048),
+             float(2 ** 64), -float(2 ** 64), 1e19, 1e20, -3e25, 1e300, 0.5, -0.25, 0.125, 1e-3, -1e-6, 1e-9, 0.1, 0.2, -0.3, 1.0 / 3.0, 2.5, -7.75, 1e-300, 5e-324, 123456.789, -2.0 ** -70]
+    bad = []
+    for v in table:
+        toks = []
+
+        def whook(callee, args, node):
+            short = (callee or '').split('::')[-1]
+            if short == 'oasis_putc':
+                toks.append(('type', args[0] & 0xFF))
+                return (0,)
+            if short == 'oasis_write_unsigned_integer':
+                toks.append(('uint', args[1]))
+                return (None,)
+            if short in ('little_endian_swap64', 'little_endian_swap32'):
+                return (None,)           # (the byte order of the 8 bytes is decided by R-BITS on the swap routines)
+            if short == 'oasis_write':
+                ref = args[0]
+                if not isinstance(ref, M.Ref) or args[1] * args[2] != 8:
+                    raise AnalysisBroken('oasis_write_real: raw write not understood')
+                toks.append(('bytes', struct.pack('<d', float(ref.env[ref.name]))))
+                return (0,)
+            if short == 'trunc':
+                return (float(math.trunc(args[0])) if abs(args[0]) != math.inf and args[0] == args[0] else args[0],)
+            if short == 'fabs':
+                return (abs(args[0]),)
+            return None
+        mi = M.Mini(db, hook=whook, c_ints=True)
+        mi.ieee = True
+        try:
+            mi.run(w.body, {w.params[0]['n']: ('opaque', 'out'), w.params[1]['n']: v})
+        except M.Return:
+            pass
+        except M.UndefinedConversion as ex:
+            bad.append('%r: %s (undefined: the integral and range tests must come first)' % (v, ex))
             continue
-        blk = c.parent
-        idx = blk.c.index(c)
-        nxt = [x for x in blk.c[idx + 1:] if x is not None]
-        wt[m.group(1)] = norm(' ; '.join(x.text() for x in nxt[:2]))
-    want_w = {'RealPositiveInteger': 'oasis_write_unsigned_integer(out, (uint64_t)value)', 'RealNegativeInteger': 'oasis_write_unsigned_integer(out, (uint64_t)(-value))',
-              'RealPositiveReciprocal': 'oasis_write_unsigned_integer(out, (uint64_t)inverse)', 'RealNegativeReciprocal': 'oasis_write_unsigned_integer(out, (uint64_t)(-inverse))',
-              'RealDouble': 'little_endian_swap64((uint64_t *)(&value), 1) ; oasis_write((&value), sizeof(double), 1, out)'}
-    okw = set(wt) == set(want_w) and all(wt[k].startswith(want_w[k]) for k in want_w)
-    ctx.check(okw, 'R-TABLE', 'real/writer-forms', w.loc(), 'the writer emits exactly the forms {+int, -int, +1/int, -1/int, double} with their magnitudes', 'writer forms: %s' % wt)
-    inv = next((v for v in w.walk() if v.k == 'VarDecl' and v.n == 'inverse'), None)
-    ctx.check(inv is not None and norm(inv.child('init').text()) == '(1.0 / value)' or (inv is not None and norm(inv.child('init').text()) == '(1 / value)'), 'R-TABLE', 'real/inverse', w.loc(), 'the reciprocal forms store 1/value')
-    # integrality guards
-    gs = [norm(i.child('cond').text()) for i in w.body.c if i is not None and i.k == 'IfStmt']
-    ok = len(gs) == 2 and gs[0].startswith('((trunc(value) == value) && (fabs(value) <') and gs[1].startswith('((trunc(inverse) == inverse) && (fabs(inverse) <')
-    ctx.check(ok, 'R-UNIT', 'real/integral-before-cast', w.loc(), 'a double is cast to uint64 only after it was proved integral and below 2^64')
+        if not toks or toks[0][0] != 'type':
+            bad.append('%r: no type byte is written' % v)
+            continue
+        rest = list(toks[1:])
+
+        def rhook(callee, args, node, rest=rest):
+            short = (callee or '').split('::')[-1]
+            if short == 'oasis_read_unsigned_integer':
+                if not rest or rest[0][0] != 'uint':
+                    raise AnalysisBroken('reader asks for an integer the writer did not write')
+                return (rest.pop(0)[1],)
+            if short == 'oasis_read':
+                ref = args[0]
+                if not rest or rest[0][0] != 'bytes' or not isinstance(ref, M.Ref):
+                    raise AnalysisBroken('reader asks for raw bytes the writer did not write')
+                ref.env[ref.name] = struct.unpack('<d', rest.pop(0)[1])[0]
+                return (0,)
+            if short in ('little_endian_swap64', 'little_endian_swap32'):
+                return (None,)
+            if short in ('fputs', 'fprintf'):
+                return (0,)
+            return None
+        ri = M.Mini(db, hook=rhook, c_ints=True, member_store=True, members={'in.error_code': 0}, globals={'error_logger': 0})
+        ri.ieee = True
+        got = None
+        try:
+            ri.run(r.body, {r.params[0]['n']: ('opaque', 'in'), r.params[1]['n']: toks[0][1]})
+        except M.Return as rr:
+            got = rr.v
+        except AnalysisBroken as ex:
+            got = 'reader: %s' % ex
+        if isinstance(got, str) or got is None or float(got) != v or rest:
+            bad.append('%r is written as %s and read back as %s' % (v, [(t if t != 'bytes' else 'double', x if t != 'bytes' else '8 bytes') for t, x in toks], got))
+    ctx.explored['valuations'] += len(table)
+    ctx.check(not bad, 'R-TABLE', 'real/writer-forms', w.loc(), 'interpreted on %d values (integers up to 2^64 on both sides of the unsigned range, reciprocals, binary fractions, decimals, extremes): what oasis_write_real emits is read back by oasis_read_real_by_type as the same double' % len(table),
+              'real numbers do not survive: ' + '; '.join(bad[:3]))
+    ctx.require('R-TABLE reals interpreted', len(table), 30)
     # reader: the decoder is evaluated for every integer-based type code on the tokens 7 (first integer read) and 3 (second):
     # the results must be the inverse maps +u, -u, 1/u, -1/u, n/d, -n/d - whatever the dispatch looks like (switch, merged arms, ifs)
     from .. import minieval as M
@@ -1086,7 +1147,7 @@ def check_gds_real(ctx, db):
 
 def run(ctx):
     db = ctx.db
-    ctx.attempt(check_guards, ctx, db)
+    ctx.memo('guards', {'src/oasis.cpp'}, check_guards, db)
     ctx.attempt(check_packing, ctx, db)
     ctx.attempt(check_directions, ctx, db)
     ctx.attempt(check_swaps, ctx, db)
@@ -1099,7 +1160,7 @@ def run(ctx):
 
 
 MANIFEST = dict(
-    text='Decides structural necessary conditions of lossless number codecs: both varint overflow guards are exact over every reachable decoder state x byte value (no silent wrap, no false overflow on terminal bytes, shift < 64, Overflow flagged); writer and reader packing parameters agree at every call-site pair; the four varint routines, partially evaluated on 1277 boundary cases (all 7-bit group boundaries, every reserved-bit count), emit and decode exactly the format\'s bytes with no store outside the local buffer; the closing edge of a closed point list is formed from absolute coordinates (no CFG path from the in-place delta store to the subtraction); for every sign/equality class of (x, y) the 2-/3-/g-delta writers composed with the readers are the identity and the direction/point-list/real type codes equal the specification; the six byte-swap bodies are exactly the byte-reversal permutation (bit-provenance domain) under opposite host guards; the real-number writer forms have inverse reader arms and doubles are cast only after proved integral; closed Manhattan lists drop/re-create exactly one delta; the point-list type classifier, interpreted as a finite automaton over delta classes (horizontal, vertical, two diagonals, general), ends in every reachable state with a list type whose delta codec can represent all deltas seen and, for closed lists, the closing edge; every arm of the point-list decoder, executed symbolically for 3 and 4 deltas (cursors as indices into a symbolic vertex array, fresh symbol per decoded delta, open and closed), stores exactly the vertices the format defines and accounts for exactly that many; the 8-byte-real constants are paired and the exponent uses a normalising idiom. The one-ulp claim and behaviour at 64-bit/exponent boundaries of floating arithmetic are not decided.',
+    text='Decides structural necessary conditions of lossless number codecs: both varint decoders, interpreted on byte streams that reach every (depth, byte) decoder state with both extreme fillings of the earlier groups, flag every value beyond 63/64 bits with ErrorCode::Overflow instead of wrapping, decode every fitting value exactly without a flag, and never shift by the operand width or more (whatever statement form guard and loop take); writer and reader packing parameters agree at every call-site pair; the four varint routines, partially evaluated on 1277 boundary cases (all 7-bit group boundaries, every reserved-bit count), emit and decode exactly the format\'s bytes with no store outside the local buffer; the closing edge of a closed point list is formed from absolute coordinates (no CFG path from the in-place delta store to the subtraction); for every sign/equality class of (x, y) the 2-/3-/g-delta writers composed with the readers are the identity and the direction/point-list/real type codes equal the specification; the six byte-swap bodies are exactly the byte-reversal permutation (bit-provenance domain) under opposite host guards; the real-number writer forms have inverse reader arms and doubles are cast only after proved integral; closed Manhattan lists drop/re-create exactly one delta; the point-list type classifier, interpreted as a finite automaton over delta classes (horizontal, vertical, two diagonals, general), ends in every reachable state with a list type whose delta codec can represent all deltas seen and, for closed lists, the closing edge; every arm of the point-list decoder, executed symbolically for 3 and 4 deltas (cursors as indices into a symbolic vertex array, fresh symbol per decoded delta, open and closed), stores exactly the vertices the format defines and accounts for exactly that many; the 8-byte-real constants are paired and the exponent uses a normalising idiom. The one-ulp claim and behaviour at 64-bit/exponent boundaries of floating arithmetic are not decided.',
     note='Trusted: clang front end, gx, sa rules. Guards and writer conditions are pure integer expressions evaluated over finite abstract state sets (decoder states derived from the initialiser and step constants; sign/equality classes of (x, y)); no library code is executed. The 8-byte-real encoder is partially evaluated in exact rational arithmetic on every power of two 2^-48..2^48 and a few 14-digit values.',
-    technique='exhaustive evaluation of pure guard predicates over the reachable abstract decoder states + partial evaluation of the four varint routines by the checker\'s AST interpreter (C integer widths, local buffers) on a boundary table compared with the format definition + decision-table composition (writer o reader) + bit-provenance abstract domain for swaps + CFG ordering rule (closing edge formed before the in-place delta conversion)',
+    technique='interpretation of both varint decoders by the checker\'s AST interpreter (C integer widths; no compiled code is run) on byte streams that reach every (depth, byte) decoder state, against the format\'s value as an unbounded integer + partial evaluation of the four varint routines by the checker\'s AST interpreter (C integer widths, local buffers) on a boundary table compared with the format definition + decision-table composition (writer o reader) + bit-provenance abstract domain for swaps + CFG ordering rule (closing edge formed before the in-place delta conversion)',
     design='§4 C19')
